@@ -40,8 +40,11 @@ fn facts_space(k: usize) -> Space {
     let mut g = space::fancy_grammar(unr_atoms());
     g.cond_group = true;
     g.cond_expr = true;
+    // conditionals with consuming, variable-size conditions need 5 nodes: (?(a*)b|c)
+    let cond_atoms = vec![lit("a"), lit("b"), Node::Dot, Node::Assert(frmc_core::ast::A::End), Node::Backref(1), Node::CondExists(1)];
     Space::new()
         .exh("unrestricted", g, k)
+        .exh("conditionals", space::cond_grammar(cond_atoms), k + 2)
         .exh("look-behind", lookbehind_grammar(), k + 1)
         .ctxfill(3, 1, &|c| c.name.contains("(?<"))
 }
